@@ -494,8 +494,10 @@ expandfunc(struct macro *m)
 	struct array str, tok;
 	size_t i, depth, paren;
 	struct token *t;
+	bool space;
 
 	/* read macro arguments */
+	space = false;
 	paren = 0;
 	depth = macrodepth;
 	tok = (struct array){0};
@@ -523,9 +525,17 @@ expandfunc(struct macro *m)
 				if (p->flags & PARAMSTR)
 					stringize(&str, t);
 			}
-			if (p->flags & PARAMTOK && !expand(t)) {
+			if (t->kind == TNEWLINE) {
+				/* white space, not a token of the argument */
+				space = true;
+			} else if (p->flags & PARAMTOK && !expand(t)) {
 				arrayaddbuf(&tok, t, sizeof(*t));
+				if (space)
+					((struct token *)((char *)tok.val + tok.len))[-1].space = true;
 				++arg[i].ntoken;
+				space = false;
+			} else {
+				space = false;
 			}
 			t = rawnext();
 		}
